@@ -76,7 +76,7 @@ func c06Exec(ops []string) []string {
 	if err != nil {
 		outs := make([]string, len(ops))
 		for i := range outs {
-			outs[i] = "node-error"
+			outs[i] = nodeErr(err)
 		}
 		return outs
 	}
